@@ -32,7 +32,7 @@
   Not modelled: console output, timestamps, `details` text of apoptosis events, the exact wording of the
   error-context / tool-result prompts (only which trace and which prefix of the raw output they carry),
   the `...` suffix after the 200-character prefix, `step_timeout` (unused by the code), provider auto-detection,
-  `energy_cost` of log entries, a `tool_calls` value that is neither `None` nor a finite list.
+  `energy_cost` of log entries, an unbounded `tool_calls` iterable.
 -/
 namespace Operon.Loops
 
@@ -310,8 +310,13 @@ structure ToolCfg where
 abbrev PromptView (θ : Type) := Option (List θ)
 
 structure ToolAdv (σ ρ κ θ : Type) where
-  /-- `provider.complete_with_tools(current_prompt, tools=…, config=…)`; a falsy `tool_calls` is `[]` -/
+  /-- `provider.complete_with_tools(current_prompt, tools=…, config=…)`: the response and the calls `tool_calls`
+      yields when iterated (none for `None`) -/
   completeTools : σ → PromptView θ → σ × Out (ρ × List κ)
+  /-- Python truthiness of the returned `tool_calls` object (`if not tool_calls`), a property of what the provider
+      returned: a list is truthy iff non-empty (`fun _ calls => !calls.isEmpty`), `None` is falsy, a generator
+      object is truthy whatever it yields -/
+  truthy : ρ → List κ → Bool
   /-- `provider.complete(prompt, config)` -/
   complete : σ → PromptView θ → σ × Out ρ
   /-- `mitochondria.execute_tool_call(call)` -/
@@ -361,7 +366,7 @@ def toolLoop {σ ρ κ θ : Type} (cfg : ToolCfg) (adv : ToolAdv σ ρ κ θ) :
       match adv.completeTools s cur with
       | (s1, .raise) => { st := s1, res := some .raise, logged := [], evs := [.tools cur .raise] }
       | (s1, .ok (resp, calls)) =>
-        if calls.isEmpty then
+        if !adv.truthy resp calls then
           { st := s1, res := some (.ok resp), logged := [⟨none, resp⟩], evs := [.tools cur (.ok (resp, calls))] }
         else if !cfg.autoExec then
           { st := s1, res := some (.ok resp), logged := [], evs := [.tools cur (.ok (resp, calls))] }
